@@ -36,7 +36,7 @@ def gates(c, tier):
             if c.get(f"cell:{k}:{ic}", 0) == 0:
                 out.append(f"no {k} with id class {ic}")
     for k in ("search-with>=3-results-before-done", "duplicate-final-response", "request-type-delivered", "batched-delivery", "chunked-delivery",
-              "accepted-response", "rejected-response", "ids-checked"):
+              "accepted-response", "rejected-response", "ids-checked", "response-with-paged-control"):
         if c.get(k, 0) == 0:
             out.append(f"never observed {k}")
     return out[:12]
@@ -113,7 +113,14 @@ def run_shard(ctx: Ctx, acc: Acc):
                         opk = drv.model.ip[mid]
                         kind = {"bind": "BindResponse", "extended": "ExtendedResponse"}.get(opk) or r.choice(["SearchResultEntry", "SearchResultEntry", "SearchResultReference", "SearchResultDone"])
                     acc.count(f"cell:{kind}:{ic}")
-                    msgs.append((kind, mid, body_for(r, kind), ()))
+                    ctl = ()
+                    y = r.random()
+                    if y < 0.25:
+                        ctl = (("1.2.840.113556.1.4.319", r.random() < 0.5, None, ("paged", r.choice([0, 100]), r.choice([b"", b"cookie", b"\x00"]))),)
+                        acc.count("response-with-paged-control")
+                    elif y < 0.4:
+                        ctl = gv.g_controls(r, gv.SMALL)
+                    msgs.append((kind, mid, body_for(r, kind), ctl))
                 if not msgs:
                     continue
                 if len(msgs) > 1:
